@@ -43,7 +43,7 @@ Definition g_split_uid (uid : string) (span n_spans : Z) : string := (append uid
 
 (* network.add_roadm_booster: for the successor n of the ROADM (kind k) *)
 Definition g_booster_wanted (k : nkind) : bool := (negb (isinst k KTrx || isinst k KFused || isinst k KEdfa || isinst k KMulti)).
-Definition g_booster_multi (hm he : bool) (bands : Z) : bool := ((hm || (negb he)) && (1 <? bands)%Z).
+Definition g_booster_multi (hm he : bool) (bands : Z) : bool := (hm || ((negb he) && (1 <? bands)%Z)).
 Definition g_booster_uid (roadm_uid next_uid : string) : string := (append "Edfa_booster_" (append roadm_uid (append "_to_" next_uid))).
 
 (* network.add_roadm_preamp: for the predecessor n of the ROADM (kind k) *)
